@@ -3,7 +3,7 @@
    with other configurations on the same domain and possibly the same input signal evaluated in between) returns, at
    every response(), the layer sweep of Model/Overhang.v applied to the CURRENT contents of its input signal.     *)
 From Coq Require Import ZArith QArith List Bool Lia.
-From Pymoto Require Import Model.Grid Model.Overhang Model.OverhangHist Proofs.GridP Proofs.OverhangP.
+From Pymoto Require Import Model.Grid Model.Overhang Model.OverhangHist Proofs.GridP Proofs.OverhangCoreP.
 Import ListNotations.
 Open Scope Z_scope.
 
